@@ -20,6 +20,7 @@ import json
 import os
 import struct
 import sys
+import time
 from io import BytesIO
 
 from common import Check, CoqError, coq_list, coq_N, coq_nat, mkdata, VERIF
@@ -789,15 +790,29 @@ def canon_model_frame(entry):
             [(v[0], v[1], v[2], bytes(v[3])) for v in views])
 
 
+def decided(chk):
+    ''' a concrete failing input has been found: the verdict no longer depends on the model '''
+    return any(not no_input for (_s, _w, _p, no_input) in chk.violations)
+
+
+def codec_replay(msgs, pad):
+    return dict(suite='codec', pad=pad.hex(),
+                msgs=[[c[0], c[1], [[h[0], h[1].hex()] for h in c[2]], c[3], c[4],
+                       (['gdata', c[5].seed, len(c[5])] if isinstance(c[5], GenBytes) else c[5].hex())] for c in msgs])
+
+
 def run_all(chk):
+    ''' Phase 1: the real code and the property oracle on every case of every
+    suite.  Phase 2 (skipped once a concrete failing input is known): the Coq
+    model on the same cases, compared observation by observation. '''
     run = Runner(chk)
     rng = chk.rng
-    import time
     t0 = [time.time()]
 
     def lap(name):
         if os.environ.get('VERIF_TIMING'):
             print('# timing %s %.1fs' % (name, time.time() - t0[0]))
+            sys.stdout.flush()
         t0[0] = time.time()
 
     # ---- corpus: recorded witnesses first --------------------------------------------------
@@ -810,22 +825,14 @@ def run_all(chk):
             corpus_send.append((case[0], case[1], case[2], case[3]))
             chk.count('corpus', os.path.basename(path))
 
-    # ---- (a) codec -----------------------------------------------------------------------
+    # ======================= phase 1: implementation + oracle ===============================
+    # ---- (a) codec
     codec_cases = gen_codec_cases(chk)
     codec_impl = [run.impl_codec(msgs, pad) for (msgs, pad) in codec_cases]
-    keep = [pos for (pos, impl) in enumerate(codec_impl) if 'error' not in impl]
-    def frame_size(pos):
-        return sum(len(case[5]) for case in codec_cases[pos][0])
-    small = [pos for pos in keep if frame_size(pos) <= BIG]
-    large = [pos for pos in keep if frame_size(pos) > BIG]
-    model_small = chk.coq_eval('codec', ['Model.Btpu'], [c_codec(*codec_cases[pos]) for pos in small], 'run_codec', chunk=max(20, len(small) // 10 + 1))
-    model_large = chk.coq_eval('codecbig', ['Model.Btpu'], [c_codec(*codec_cases[pos]) for pos in large], 'run_codec_big', chunk=max(2, len(large) // 12 + 1))
-    encodings = []
-    for (pos, mod) in list(zip(small, model_small)) + list(zip(large, model_large)):
-        (msgs, pad) = codec_cases[pos]
-        impl = codec_impl[pos]
-        big = pos in large
-        in_range = all(fits_field_ranges(case) for case in msgs)
+    for (pos, ((msgs, pad), impl)) in enumerate(zip(codec_cases, codec_impl)):
+        if 'error' in impl:
+            chk.count('codec_build', 'real code raises (value outside a field width)')
+            continue
         chk.case(('codec', pos), nontrivial=bool(msgs) and (len(msgs) > 1 or bool(msgs[0][2]) or bool(pad)),
                  sample=samp(chk, 2, dict(suite='codec', msgs=[[c[0], c[1], [[h[0], h[1].hex()] for h in c[2]], c[3], c[4], c[5].hex()[:40]] for c in msgs][:3],
                                           pad=pad.hex(), frame=impl['enc'].hex()[:80])) if len(msgs) > 1 and msgs[0][2] else None)
@@ -834,11 +841,83 @@ def run_all(chk):
             chk.count('codec_hints', len(case[2]) if len(case[2]) <= 4 else '>4')
             chk.count('codec_payload_octets', '0' if not case[5] else ('1-255' if len(case[5]) < 256 else ('256-65535' if len(case[5]) < 65536 else '>=65536')))
         chk.count('codec_msgs_per_frame', len(msgs) if len(msgs) < 6 else '>=6')
-        replay = dict(suite='codec', msgs=[[c[0], c[1], [[h[0], h[1].hex()] for h in c[2]], c[3], c[4],
-                                            (['gdata', c[5].seed, len(c[5])] if isinstance(c[5], GenBytes) else c[5].hex())] for c in msgs], pad=pad.hex())
-        run.check_codec(msgs, pad, impl, replay)
-        if not big:
-            encodings.append(impl['enc'])
+        run.check_codec(msgs, pad, impl, codec_replay(msgs, pad))
+    encodings = [impl['enc'] for impl in codec_impl if 'error' not in impl and len(impl['enc']) <= 600]
+    # ---- (a') decode / re-encode of octet strings
+    dec_cases = gen_decode_cases(chk, encodings)
+    dec_impl = []
+    for octets in dec_cases:
+        dis = real_dissect(octets)
+        dec_impl.append(dis)
+        if dis.get('valid') and (dis['reenc'] != octets or dis['rebuilt'] != octets):
+            # oracle: decoding then re-encoding any valid frame reproduces it
+            chk.fail('C20 / decode / re-encoding differs', 'frame %s re-encodes to %s / %s' % (
+                octets.hex(), (dis['reenc'] or b'').hex(), dis['rebuilt'].hex()), dict(suite='decode', octets=octets.hex()))
+    # ---- (b) send
+    send_cases = corpus_send + gen_send_cases(chk)
+    send_impl = []
+    for case in send_cases:
+        (mtu, xid, seed, length) = case
+        (frames, term) = real_send(mtu, xid, gdata(seed, length))
+        send_impl.append((frames, term))
+        run.check_send(case, frames, term)
+        nseg = len(frames)
+        chk.case(('send', mtu, length), nontrivial=nseg >= 2,
+                 sample=samp(chk, 4, dict(suite='send', mtu=mtu, xid=xid, seed=seed, length=length, frames=nseg,
+                                          sizes=[len(f) for f in frames][:6])) if nseg in (2, 3) else None)
+        chk.count('send_frames', nseg if nseg < 6 else ('6-20' if nseg <= 20 else '>20'))
+        chk.count('send_mtu', 'none' if mtu is None else ('<=18' if mtu <= 18 else ('19-64' if mtu <= 64 else ('65-1500' if mtu <= 1500 else '>1500'))))
+        if mtu is not None and nseg >= 1:
+            chk.count('send_boundary', 'frame==mtu' if max(len(f) for f in frames) == mtu else 'frame<mtu')
+    # ---- (c) receive: this sender's segments in every order
+    xfer_cases = []
+    xfer_impl = []
+    for (mtu, xid, seed, length, nperm) in gen_xfer_specs(chk):
+        data = gdata(seed, length)
+        (frames, term) = real_send(mtu, xid, data)
+        run.check_send((mtu, xid, seed, length), frames, term)
+        for order in expand_orders(rng, len(frames), nperm):
+            case = (mtu, xid, seed, length, order)
+            obs = real_recv([(1, frames[pos]) for pos in order])
+            xfer_cases.append(case)
+            xfer_impl.append(obs)
+            run.check_xfer(case, obs)
+            nseg = len(order)
+            chk.case(('xfer',) + tuple(case[:4]) + (tuple(order),), nontrivial=order != sorted(order),
+                     sample=samp(chk, 6, dict(suite='recv', mtu=mtu, length=length, order=order,
+                                              signal_counts=[n for (n, _r) in obs['trace']])) if nseg == 4 and order[0] == 3 else None)
+            chk.count('recv_segments', nseg if nseg <= 5 else '>5')
+    # peer-crafted arrivals: quirks of the receive path (no verdict, correspondence only)
+    recv_cases = gen_recv_cases(chk)
+    recv_impl = []
+    for arrival in recv_cases:
+        obs = real_recv(arrival)
+        recv_impl.append(obs)
+        chk.case(('recv', tuple(arrival)), nontrivial=len(arrival) > 1, sample=None)
+        chk.count('recv_crafted_outcome', 'raised' if any(r for (_n, r) in obs['trace']) else ('queued' if obs['queue'] else 'nothing-queued'))
+    lap('phase 1 (real code + oracle)')
+    if decided(chk):
+        for suite in ('codec', 'decode', 'send', 'recv'):
+            chk.obligation('correspondence:' + suite, True, 'not evaluated: a concrete failing input decides the verdict')
+        return run
+
+    # ======================= phase 2: the model on the same cases =============================
+    # ---- (a) codec
+    keep = [pos for (pos, impl) in enumerate(codec_impl) if 'error' not in impl]
+
+    def frame_size(pos):
+        return sum(len(case[5]) for case in codec_cases[pos][0])
+    small = [pos for pos in keep if frame_size(pos) <= BIG]
+    large = [pos for pos in keep if frame_size(pos) > BIG]
+    model_small = chk.coq_eval('codec', ['Model.Btpu'], [c_codec(*codec_cases[pos]) for pos in small], 'run_codec',
+                               chunk=max(20, len(small) // 10 + 1))
+    model_large = chk.coq_eval('codecbig', ['Model.Btpu'], [c_codec(*codec_cases[pos]) for pos in large], 'run_codec_big',
+                               chunk=max(2, len(large) // 12 + 1))
+    for (pos, mod) in list(zip(small, model_small)) + list(zip(large, model_large)):
+        (msgs, pad) = codec_cases[pos]
+        impl = codec_impl[pos]
+        big = pos in large
+        in_range = all(fits_field_ranges(case) for case in msgs)
         dis = impl['dis']
         too_many = len(msgs) > 100 or any(len(c[2]) > 100 for c in msgs)
         want_wf = in_range and not too_many and all(case[0] != 0 for case in msgs)
@@ -871,20 +950,14 @@ def run_all(chk):
         elif dis.get('valid') and not too_many:
             run.note_mismatch('codec', 'case %d: model rejects a frame the real code dissects cleanly' % pos)
     chk.obligation('correspondence:codec', not run.mismatch.get('codec'), '; '.join(run.mismatch.get('codec', [])[:3]))
-
     lap('codec')
-    # ---- (a') decode / re-encode of octet strings ------------------------------------------
-    dec_cases = gen_decode_cases(chk, encodings)
-    model = chk.coq_eval('decode', ['Model.Btpu'], [cb(item) for item in dec_cases], 'run_decode', chunk=max(20, len(dec_cases) // 8 + 1))
-    for (pos, (octets, mod)) in enumerate(zip(dec_cases, model)):
-        dis = real_dissect(octets)
+
+    # ---- (a') decode
+    model = chk.coq_eval('decode', ['Model.Btpu'], [cb(item) for item in dec_cases], 'run_decode',
+                         chunk=max(20, len(dec_cases) // 8 + 1))
+    for (octets, dis, mod) in zip(dec_cases, dec_impl, model):
         chk.case(('decode', octets), nontrivial=bool(mod), sample=None)
         chk.count('decode_verdict', 'valid' if mod else 'not-a-valid-frame')
-        if dis.get('valid'):
-            # oracle: decoding then re-encoding any valid frame reproduces it
-            if dis['reenc'] != octets or dis['rebuilt'] != octets:
-                chk.fail('C20 / decode / re-encoding differs', 'frame %s re-encodes to %s / %s' % (
-                    octets.hex(), (dis['reenc'] or b'').hex(), dis['rebuilt'].hex()), dict(suite='decode', octets=octets.hex()))
         if mod:
             m_frame = mod[0][:3]
             m_reenc = mod[0][3]
@@ -895,31 +968,17 @@ def run_all(chk):
         elif dis.get('valid') and len(dis['msgs']) <= 100:
             run.note_mismatch('decode', '%s: model rejects a frame the real code dissects cleanly' % octets.hex()[:60])
     chk.obligation('correspondence:decode', not run.mismatch.get('decode'), '; '.join(run.mismatch.get('decode', [])[:3]))
-
     lap('decode')
-    # ---- (b) send ------------------------------------------------------------------------
-    send_cases = corpus_send + gen_send_cases(chk)
-    send_impl = []
-    for case in send_cases:
-        (mtu, xid, seed, length) = case
-        (frames, term) = real_send(mtu, xid, gdata(seed, length))
-        send_impl.append((frames, term))
-        run.check_send(case, frames, term)
-        nseg = len(frames)
-        chk.case(('send', mtu, length), nontrivial=nseg >= 2,
-                 sample=samp(chk, 4, dict(suite='send', mtu=mtu, xid=xid, seed=seed, length=length, frames=nseg,
-                                          sizes=[len(f) for f in frames][:6])) if nseg in (2, 3) else None)
-        chk.count('send_frames', nseg if nseg < 6 else ('6-20' if nseg <= 20 else '>20'))
-        chk.count('send_mtu', 'none' if mtu is None else ('<=18' if mtu <= 18 else ('19-64' if mtu <= 64 else ('65-1500' if mtu <= 1500 else '>1500'))))
-        if mtu is not None and nseg >= 1:
-            chk.count('send_boundary', 'frame==mtu' if max(len(f) for f in frames) == mtu else 'frame<mtu')
+
+    # ---- (b) send
     small = [pos for (pos, case) in enumerate(send_cases) if case[3] <= BIG]
     large = [pos for (pos, case) in enumerate(send_cases) if case[3] > BIG]
-    model_small = chk.coq_eval('send', ['Model.Btpu'], [c_send(*send_cases[pos]) for pos in small], 'run_send', chunk=max(20, len(small) // 12 + 1))
     large.sort(key=lambda pos: send_cases[pos][3])
     mid = [pos for pos in large if send_cases[pos][3] <= 20000]
     huge = [pos for pos in large if send_cases[pos][3] > 20000]
     large = mid + huge
+    model_small = chk.coq_eval('send', ['Model.Btpu'], [c_send(*send_cases[pos]) for pos in small], 'run_send',
+                               chunk=max(20, len(small) // 12 + 1))
     model_large = (chk.coq_eval('sendmid', ['Model.Btpu'], [c_send(*send_cases[pos]) for pos in mid], 'run_send_big',
                                 chunk=max(8, len(mid) // 12 + 1))
                    + chk.coq_eval('sendbig', ['Model.Btpu'], [c_send(*send_cases[pos]) for pos in huge], 'run_send_big', chunk=1))
@@ -934,27 +993,11 @@ def run_all(chk):
         if got != want:
             run.note_mismatch('send', 'mtu=%s len=%d: frames differ (length/prefix/digest)' % (send_cases[pos][0], send_cases[pos][3]))
     chk.obligation('correspondence:send', not run.mismatch.get('send'), '; '.join(run.mismatch.get('send', [])[:3]))
-
     lap('send')
-    # ---- (c) receive: this sender's segments in every order ---------------------------------
-    xfer_cases = []
-    xfer_impl = []
-    for (mtu, xid, seed, length, nperm) in gen_xfer_specs(chk):
-        data = gdata(seed, length)
-        (frames, term) = real_send(mtu, xid, data)
-        run.check_send((mtu, xid, seed, length), frames, term)
-        for order in expand_orders(rng, len(frames), nperm):
-            case = (mtu, xid, seed, length, order)
-            obs = real_recv([(1, frames[pos]) for pos in order])
-            xfer_cases.append(case)
-            xfer_impl.append(obs)
-            run.check_xfer(case, obs)
-            nseg = len(order)
-            chk.case(('xfer',) + tuple(case[:4]) + (tuple(order),), nontrivial=order != sorted(order),
-                     sample=samp(chk, 6, dict(suite='recv', mtu=mtu, length=length, order=order,
-                                              signal_counts=[n for (n, _r) in obs['trace']])) if nseg == 4 and order[0] == 3 else None)
-            chk.count('recv_segments', nseg if nseg <= 5 else '>5')
-    model = chk.coq_eval('xfer', ['Model.Btpu'], [c_xfer(*case) for case in xfer_cases], 'run_xfer', chunk=max(20, len(xfer_cases) // 14 + 1))
+
+    # ---- (c) receive
+    model = chk.coq_eval('xfer', ['Model.Btpu'], [c_xfer(*case) for case in xfer_cases], 'run_xfer',
+                         chunk=max(20, len(xfer_cases) // 14 + 1))
     for (case, obs, mod) in zip(xfer_cases, xfer_impl, model):
         (m_counts, m_queue, m_signals, m_prog, m_timers, m_same) = mod
         real = ([n for (n, _r) in obs['trace']], [(len(d), digest(d)) for (_b, d) in obs['queue']],
@@ -967,14 +1010,9 @@ def run_all(chk):
         if bool(m_same) != (len(obs['queue']) == 1 and obs['queue'][0][1] == gdata(case[2], case[3])):
             run.note_mismatch('recv', 'order=%s: model and real disagree on "queued = bundle"' % (case[4],))
     lap('xfer')
-    # peer-crafted arrivals: quirks of the receive path (no verdict, correspondence only)
-    recv_cases = gen_recv_cases(chk)
     model = chk.coq_eval('recv', ['Model.Btpu'], [c_recv(arr) for arr in recv_cases], 'run_recv', chunk=40)
-    for (arrival, mod) in zip(recv_cases, model):
-        obs = real_recv(arrival)
+    for (arrival, obs, mod) in zip(recv_cases, recv_impl, model):
         (m_trace, (m_prog, m_queue, m_signals, m_timers)) = mod
-        chk.case(('recv', tuple(arrival)), nontrivial=len(arrival) > 1, sample=None)
-        chk.count('recv_crafted_outcome', 'raised' if any(r for (_n, r) in obs['trace']) else ('queued' if obs['queue'] else 'nothing-queued'))
         real = ([(n, bool(r)) for (n, r) in obs['trace']], [(b, d) for (b, d) in obs['queue']],
                 [(s[0], s[1]) for s in obs['signals']], obs['timers'])
         modl = ([(n, bool(r)) for (n, r) in m_trace], [(b, bytes(d)) for (b, d) in m_queue],
@@ -1009,9 +1047,7 @@ def search_more(chk):
                     found = True
         for (pos, (msgs, pad)) in enumerate(gen_codec_cases(chk)):
             impl = run.impl_codec(msgs, pad)
-            replay = dict(suite='codec', msgs=[[c[0], c[1], [[h[0], h[1].hex()] for h in c[2]], c[3], c[4],
-                                                (['gdata', c[5].seed, len(c[5])] if isinstance(c[5], GenBytes) else c[5].hex())] for c in msgs], pad=pad.hex())
-            if run.check_codec(msgs, pad, impl, replay):
+            if run.check_codec(msgs, pad, impl, codec_replay(msgs, pad)):
                 found = True
     finally:
         chk.tier = saved
